@@ -45,7 +45,7 @@ func (c06) Budget(tier string) int {
 	if tier == "thorough" {
 		return 40000
 	}
-	return 900
+	return 600
 }
 
 // ---------------------------------------------------------------------------
